@@ -101,7 +101,7 @@ prop('C14', rules=['rows', 'rowtags'], take=['C14.rows-exec', 'C14.rows', 'C14.p
              'front-row:internal_row.hpp:internal': 1, 'front-row:internal_row.hpp:_internal': 1, 'tl-puml-asserts': 20, **FLOOR_EXT, **FLOOR_INT},
      explanation='Front-end / back-end agreement: every front-end row class carries the tag matching the calls it provides (guard_call / action_call, Guard / Action typedefs, internal iff no target) (C14.rows); every executor instantiation calls the guard / action exactly when the row\'s tag says so and has a guard-reject path when the row has a guard (C14.rows-exec); PlantUML: a generated matrix of spellings of one transition line (1-4 dashes, padding, actions/guard in both orders, 0-3 actions, guard expressions with ! && || and one parenthesis level) must yield the row type of the canonical spelling, plus fixed expectations for parts and operator precedence, compiled as static_asserts with clang -fsyntax-only (C14.puml). This decides those strings, not the whole grammar.')
 prop('C18', rules=['casts', 'plans', 'plans_mp11', 'queues'], take=['C18.cast', 'C01.plan', 'C04.target', 'C18.frow-event'],
-     floors={'cell-cast:back': 1, 'cell-cast:back11': 1, 'plan-table:back': 1, 'plan-table:back11': 1, 'stored-callable:back:MSGQ': 1, 'stored-callable:back11:MSGQ': 1},
+     floors={'cell-cast:back11': 1, 'plan-table:back': 1, 'plan-table:back11': 1, 'stored-callable:back:MSGQ': 1, 'stored-callable:back11:MSGQ': 1},
      explanation='Event matching: for every instantiated back/back11 runtime-speed dispatch table the candidates installed per state equal the rows allowed by "same type, public base, or Kleene" in table priority order, recomputed from the front-end declarations (C01.plan); no executor is called through a cell signature with a different event class unless the trigger is on the primary-base chain of the event (C18.cast); queued / deferred events are stored by value (C04.target). Payload through user conversions is not decided.')
 
 prop('C20', rules=['poly', 'queues', 'copymp11'], take=['C20.poly', 'C20.erasure', 'C20.cb', 'C04.queue-ops', 'C04.erase', 'C04.dequeue', 'C04.target', 'C15.pool'], static=[rules_types.poly_static],
